@@ -433,8 +433,24 @@ func (env *SpecEnv) localVar(name string) (Val, bool) {
 		best := allocs[0]
 		if env.hdr != nil {
 			hp := firstPos(env.hdr)
+			have := func(c *ssa.Alloc) bool {
+				if _, ok := env.st.cells[c]; ok {
+					return true
+				}
+				_, ok := fr.vals[c]
+				return ok && c.Heap
+			}
+			if !have(best) {
+				for _, c := range allocs {
+					if have(c) {
+						best = c
+						break
+					}
+				}
+			}
 			for _, c := range allocs {
-				if c.Pos().IsValid() && hp.IsValid() && c.Pos() <= hp && c.Pos() >= best.Pos() {
+				// a declaration that has not been executed on this path is not in scope
+				if c.Pos().IsValid() && hp.IsValid() && c.Pos() <= hp && c.Pos() >= best.Pos() && have(c) {
 					best = c
 				}
 			}
